@@ -20,7 +20,20 @@ var cborEncMode = func() cbor.EncMode {
 	return m
 }()
 
+// cborDecMode is the decoding mode of every storage the harness creates. The nesting limit is the caller's choice
+// (the library's default of 32 CBOR levels is used up by a handful of inlined containers inside one another, each of
+// which costs several CBOR levels, plus wrappers); like the production client, the harness allows deep nesting, so
+// that "a slab the library encoded does not decode" can only be the library's doing.
 var cborDecMode = func() cbor.DecMode {
+	m, err := cbor.DecOptions{MaxNestedLevels: 65535}.DecMode()
+	if err != nil {
+		panic(err)
+	}
+	return m
+}()
+
+// cborDecModeDefault (32 nesting levels) is what the hostile-input check C19 decodes with.
+var cborDecModeDefault = func() cbor.DecMode {
 	m, err := cbor.DecOptions{}.DecMode()
 	if err != nil {
 		panic(err)
